@@ -508,7 +508,7 @@ pub fn c04<E: IGlue>(ctx: &mut Ctx) {
     let n = m.enabled.len();
     let describe = |v: &Vec<E>| -> Vec<(usize, Vec<String>)> { v.iter().map(|x| (x.idx(), x.fields())).collect() };
     let want: Vec<(usize, Vec<String>)> = (0..n).map(|p| (m.enabled[p], m.fields[p].clone())).collect();
-    let fwd: Result<Vec<E>, String> = catch(|| E::iter().take(200).collect());
+    let fwd: Result<Vec<E>, String> = catch(|| E::iter().take(200.max(2 * n + 8)).collect());
     ctx.eval();
     let nontrivial = spec.variants.iter().any(|v| v.kind != Kind::Unit) || {
         let last_en = m.enabled.last().copied().unwrap_or(0);
@@ -529,7 +529,7 @@ pub fn c04<E: IGlue>(ctx: &mut Ctx) {
         Err(p) => ctx.fail("iter-forward-panic", json!({"mask": mask}), format!("{:?}", want), p),
     }
     ctx.eval();
-    match catch(|| E::iter().rev().take(200).collect::<Vec<E>>()) {
+    match catch(|| E::iter().rev().take(200.max(2 * n + 8)).collect::<Vec<E>>()) {
         Ok(v) => {
             let got = describe(&v);
             let mut w = want.clone();
